@@ -292,6 +292,7 @@ class DescriptorTransaction(_TransactionBase):
                                      if tr_item.new is None and tr_item.old is not None]
             to_be_created_handles = [tr_item.new.Handle for tr_item in self.descriptor_updates.values()
                                      if tr_item.old is None and tr_item.new is not None]
+            removed_handles = set()  # all descriptors removed by this transaction, sub trees included
             # Remark 1:
             # handling only updated states here: If a descriptor is created, it can be assumed that the
             # application also creates the state in a transaction.
@@ -327,12 +328,15 @@ class DescriptorTransaction(_TransactionBase):
                         orig_descriptor.Handle, orig_descriptor.DescriptorVersion)
                     all_descriptors = self._mdib.get_all_descriptors_in_subtree(orig_descriptor)
                     self._mdib.rm_descriptors_and_states(all_descriptors)
+                    removed_handles.update(d.Handle for d in all_descriptors)
                     proc.descr_deleted.extend([d.mk_copy() for d in all_descriptors])
                     # increment DescriptorVersion if a child descriptor is added or deleted.
                     if orig_descriptor.parent_handle is not None \
                             and orig_descriptor.parent_handle not in to_be_deleted_handles:
                         # only update parent if it is not also deleted in this transaction
                         self._increment_parent_descriptor_version(proc, orig_descriptor)
+                elif orig_descriptor.Handle in removed_handles:
+                    continue  # it was already removed together with a parent that is deleted in this transaction
                 else:
                     # this is an update operation
                     proc.descr_updated.append(new_descriptor)
@@ -349,6 +353,9 @@ class DescriptorTransaction(_TransactionBase):
                                             (self.operational_state_updates, proc.op_updates),
                                             (self.rt_sample_state_updates, proc.rt_updates),
                                             ):
+                for key in [k for k, item in updates_dict.items()
+                            if (item.new if item.new is not None else item.old).DescriptorHandle in removed_handles]:
+                    del updates_dict[key]  # the descriptor of this state was removed, the state went with it
                 updates = self._handle_state_updates(updates_dict)
                 dest_list.extend(updates)
         return proc
